@@ -156,6 +156,9 @@ type simLedger struct {
 	// slow-flush fault: Wait(r) for an already written round r stays open until flushed >= r.
 	flushed basics.Round
 	slow    map[basics.Round]chan struct{}
+	// genesisSlow: even the durability notification of the round preceding the first simulated round
+	// is delayed until the first flush action (a node whose ledger is still syncing when it starts)
+	genesisSlow bool
 }
 
 func newSimLedger(s *Sim, n *Node) *simLedger {
@@ -190,7 +193,7 @@ func (l ledgerView) Wait(r basics.Round) chan struct{} {
 	l.mu.Lock()
 	defer l.mu.Unlock()
 	if l.nextRound > r {
-		if r <= l.flushed || l.in.shadow {
+		if (r <= l.flushed && !(r == 0 && l.genesisSlow)) || l.in.shadow {
 			c := make(chan struct{})
 			close(c)
 			return c
@@ -216,6 +219,7 @@ func (l *simLedger) flush() int {
 	l.mu.Lock()
 	defer l.mu.Unlock()
 	n := 0
+	l.genesisSlow = false
 	l.flushed = l.nextRound - 1
 	for r, c := range l.slow {
 		if r <= l.flushed {
